@@ -244,6 +244,9 @@ def _decide_verus_unit(unit, tier, workdir, W, seed):
             raise Undecided(str(e))
         raise
     rep = main["report"]
+    rn = (unit.get("opts") or {}).get("rename_fns") or {}   # R33: extracted functions renamed to avoid a clash with a ghost name
+    for f in rep["functions"]:
+        f["fn"] = rn.get(f["fn"], f["fn"])
     contracted = [f["fn"] for f in rep["functions"] if f["contracted"]]
     fnres = {f["fn"]: f for f in main["functions"]}
     obligations = []
